@@ -433,6 +433,27 @@ def gen_mp(ctx):
         big = {1: {'prefix': '2001:db8::/32', 'offset': 0}, 5: '|'.join('=%d' % (1000 + i) for i in range(k))}
         out.append(mp('flow.ge240' if 8 + 3 * k >= 240 else 'flow6',
                       reach={'afi_safi': [2, 133], 'nexthop': '', 'nlri': [big]}))
+    # ---- flowspec v4 / v6: NLRI bodies of exactly n octets on both sides of the length-form switch
+    # (below 240 one length octet, from 240 on 0xfnnn), and the largest that fits a 4096-octet message
+    def ports(n):
+        """operator list of a component of exactly n octets: type + 3-octet items + 2-octet items"""
+        a = (n - 1) // 3
+        while (n - 1 - 3 * a) % 2:
+            a -= 1
+        b = (n - 1 - 3 * a) // 2
+        return '|'.join(['=%d' % (1000 + i) for i in range(a)] + ['=%d' % (10 + i % 200) for i in range(b)])
+    for n in list(range(234, 247)) + [254, 255, 256, 257, 511, 512, 4000]:
+        cls = 'flow.ge240' if n >= 240 else 'flow.lt240'
+        r4 = {1: '192.88.3.0/24', 5: ports(n - 5)}
+        r6 = {1: {'prefix': '2001:db8::/32', 'offset': 0}, 5: ports(n - 7)}
+        out.append(mp(cls, reach={'afi_safi': [1, 133], 'nexthop': '', 'nlri': [r4]}))
+        out.append(mp(cls, unreach={'afi_safi': [1, 133], 'withdraw': [r4]}))
+        out.append(mp(cls, reach={'afi_safi': [2, 133], 'nexthop': '', 'nlri': [r6]}))
+        if n < 1000:
+            small = {1: '10.0.0.0/8', 3: '=6'}
+            out.append(mp(cls, reach={'afi_safi': [1, 133], 'nexthop': '10.0.0.9', 'nlri': [small, r4, small]}))
+            out.append(mp(cls, reach={'afi_safi': [2, 133], 'nexthop': '2001:db8::1',
+                                      'nlri': [r6, {1: {'prefix': '2001:db8::/32', 'offset': 0}, 3: '=6'}]}))
     # ---- SR-TE policy NLRI + tunnel encapsulation attribute
     sid = {'label': 3000, 'TC': 0, 'S': 0, 'TTL': 255}
     segs = [{'1': {'label': 2000}}, {'1': {'label': 1048575, 'TC': 7, 'S': 1, 'TTL': 1}},
@@ -481,8 +502,175 @@ def gen_mp(ctx):
     return out
 
 
+# ------------------------------------------------------------------------------------------
+# free text.  Everything the constructors take as text can arrive in the JSON body of the REST API
+# (POST /v1/peer/<ip>/send/update): JSON strings are arbitrary Unicode (json.loads even keeps lone
+# surrogates).  Every string leaf of a set of representative inputs is replaced by "legal but unusual"
+# text; the constructor has to refuse it or emit something the walker accepts.
+# ------------------------------------------------------------------------------------------
+FULLWIDTH = dict((ord('0') + i, 0xff10 + i) for i in range(10))       # int('１２') == 12
+ARABIC = dict((ord('0') + i, 0x0660 + i) for i in range(10))          # int('١٢') == 12
+UNUSUAL_TEXT = [
+    '', ' ', '\t', '\n', '\x00', 'a\x00b', '\x7f',
+    '\xe9', 'n\xfacleo-1', 'policy-\u4e1c', '\u540d' * 5, '\xff', '\u00df', '\u0130',
+    'e\u0301', '\u202e', '\ufeff', '\U0001f600', '\udc80', '\ud83d',
+    '\uff11\uff12', '\u0663', '\u00b2', '\u2460', '1_0', '+1', '-1', '0x10', '1e3', '1.0', 'nan', 'None',
+    'x' * 255, 'x' * 256, 'x' * 65536, '\xe9' * 127, '\xe9' * 128, '\u4e1c' * 85, '\u4e1c' * 86,
+    '1' * 255, '9' * 40,
+]
+# policy names (tunnel encapsulation sub-TLV 129): the sub-TLV length has to be the number of OCTETS
+# written; names whose encoded size differs from their number of characters, around 255/256 and 65535
+POLICY_NAMES = [
+    'core-1', '', ' ', '\x00', 'a\x00b', '\x7f' * 3, '~' * 255, '~' * 256,
+    'n\xfacleo-1', 'policy-\u4e1c', '\xe9', '\xff', '\u4e1c', '\U0001f600', 'e\u0301', '\ufeff' + 'p', '\u202e' + 'p',
+    'a' * 253 + '\xe9', 'a' * 254 + '\xe9', 'a' * 255 + '\xe9', '\xe9' * 127, '\xe9' * 128, '\u4e1c' * 85,
+    '\u4e1c' * 86, '\U0001f600' * 64, 'a' * 65533 + '\xe9', '\udc80', 'p\ud83d', 'caf\xe9-\u6771\u4eac-\U0001f680',
+    '\u0430\u0431\u0432', '\u05e9\u05dc\u05d5\u05dd', '\u0661\u0662',
+]
+
+
+def _string_leaves(x, path=()):
+    """paths of the string values of a JSON-like value (dictionary keys are left alone)"""
+    if isinstance(x, str):
+        yield path
+    elif isinstance(x, dict):
+        for k in x:
+            for q in _string_leaves(x[k], path + (k,)):
+                yield q
+    elif isinstance(x, (list, tuple)):
+        for i, v in enumerate(x):
+            for q in _string_leaves(v, path + (i,)):
+                yield q
+
+
+def _get(x, path):
+    for k in path:
+        x = x[k]
+    return x
+
+
+def _subst(x, path, new):
+    """copy of x with the value at path replaced"""
+    if not path:
+        return new
+    if isinstance(x, dict):
+        return dict((k, _subst(v, path[1:], new) if k == path[0] else v) for k, v in x.items())
+    return [(_subst(v, path[1:], new) if i == path[0] else v) for i, v in enumerate(x)]
+
+
+def text_variants(orig, rng, thorough):
+    out = list(UNUSUAL_TEXT)
+    out += [orig + ' ', ' ' + orig, orig + '\n', orig + '\x00', orig + '\xe9', orig + '\u4e1c', '\ufeff' + orig,
+            orig.translate(FULLWIDTH), orig.translate(ARABIC), orig.upper(), orig.lower(),
+            orig.replace('.', '\u3002').replace(':', '\uff1a').replace('/', '\u2215').replace('-', '\u2010'),
+            orig * 2, orig + ',' + orig, orig[:-1], orig[1:]]
+    # the same text with one group fewer / one group more / an empty group ('00-11-22-33-44',
+    # '1.2.3', '100:12:12', '10.0.0.0/8/8', '=80|')
+    for sep in '-:./|':
+        g = orig.split(sep)
+        if len(g) > 1:
+            out += [sep.join(g[:-1]), sep.join(g + g[-1:]), sep.join(g[:-1] + ['']), sep.join([''] + g[1:]),
+                    sep.join(g[:1] + [''] + g[1:])]
+    if thorough:
+        out += [orig[:i] + '\xe9' + orig[i:] for i in range(1, len(orig))][:12]
+    seen, res = set(), []
+    for t in out:
+        if t != orig and t not in seen:
+            seen.add(t)
+            res.append(t)
+    return res
+
+
+def text_templates():
+    """representative inputs: one per constructor / sub-constructor that takes text"""
+    sid = {'label': 3000, 'TC': 0, 'S': 0, 'TTL': 255}
+    segs = [{'1': {'label': 2000}}, {'3': {'node': '10.1.1.1', 'SID': sid}},
+            {'5': {'interface': 9, 'node': '10.1.1.1'}}, {'6': {'local': '10.1.1.1', 'remote': '10.1.1.2'}}]
+    srte = {'afi_safi': [1, 73], 'nexthop': '192.168.5.5', 'nlri': {'distinguisher': 0, 'color': 10, 'endpoint': '192.168.5.7'}}
+    esi1 = {'type': 1, 'value': {'ce_mac_addr': '00-11-22-33-44-55', 'ce_port_key': 10}}
+    t = []
+    full = {1: 2, 2: [[2, [65001, 65002]]], 3: '10.0.0.1', 4: 50, 5: 100, 6: '', 7: [65001, '1.1.1.1'],
+            8: ['NO_EXPORT', '65001:1'], 9: '2.2.2.2', 10: ['3.3.3.3', '4.4.4.4'],
+            16: [[0x0002, '65001:100'], [0x0102, '1.2.3.4:100'], [0x0202, '4200000000:100'], [0x8008, '65001:200'],
+                 [0x0800, '10.10.10.10', 0], [0x8006, '100:1000'], [0x0602, '00-11-22-33-44-55'], [0x4004, '65001:100000']],
+            32: ['1:2:3', '4294967295:0:1']}
+    t.append(('text.v4', {'attr': full, 'nlri': ['10.0.0.0/8', '192.168.1.0/24'], 'withdraw': ['172.16.0.0/12']}))
+
+    def mpt(cls, reach=None, unreach=None, extra=None):
+        t.append((cls, mp(cls, reach=reach, unreach=unreach, extra=extra)[2]['msg']))
+    mpt('text.v6', reach={'afi_safi': [2, 1], 'nexthop': '2001:db8::1', 'linklocal_nexthop': 'fe80::1', 'nlri': ['2001:db8:1::/48']})
+    mpt('text.v6', unreach={'afi_safi': [2, 1], 'withdraw': ['2001:db8:1::/48']})
+    for afi, nh, p in ((1, '10.0.0.1', '192.168.90.0/24'), (2, '2001:db8::1', '2001:db8:1::/48')):
+        mpt('text.lu', reach={'afi_safi': [afi, 4], 'nexthop': nh, 'nlri': [{'prefix': p, 'label': [16]}]})
+        mpt('text.lu', unreach={'afi_safi': [afi, 4], 'withdraw': [{'prefix': p, 'label': [16]}]})
+        r = {'label': [54], 'rd': '100:12', 'prefix': p}
+        mpt('text.vpn', reach={'afi_safi': [afi, 128], 'nexthop': {'rd': '0:0', 'str': '2.2.2.2' if afi == 1 else '::ffff:172.16.4.12'},
+                               'nlri': [r, dict(r, rd='1.2.3.4:5'), dict(r, rd='65536:2')]})
+        mpt('text.vpn', unreach={'afi_safi': [afi, 128], 'withdraw': [r]})
+    rts = [{'type': 1, 'value': {'rd': '1.1.1.1:32867', 'esi': esi1, 'eth_tag_id': 100, 'label': [10]}},
+           {'type': 2, 'value': {'eth_tag_id': 108, 'label': [100], 'rd': '172.17.0.3:2', 'mac': '00-11-22-33-44-55',
+                                 'esi': {'type': 2, 'value': {'rb_mac_addr': '00-11-22-33-44-55', 'rb_priority': 10}},
+                                 'ip': '11.11.11.1'}},
+           {'type': 3, 'value': {'rd': '172.16.0.1:5904', 'eth_tag_id': 100, 'ip': '2001:db8::9'}},
+           {'type': 4, 'value': {'rd': '172.16.0.1:8888',
+                                 'esi': {'type': 3, 'value': {'sys_mac_addr': '00-11-22-33-44-55', 'ld_value': 0xabcdef}},
+                                 'ip': '192.168.0.1'}},
+           {'type': 5, 'value': {'esi': 0, 'eth_tag_id': 1, 'gateway': '1.1.1.1', 'label': [10], 'prefix': '1.1.1.0/24',
+                                 'rd': '65536:2'}}]
+    mpt('text.evpn', reach={'afi_safi': [25, 70], 'nexthop': '10.75.44.254', 'nlri': rts})
+    mpt('text.evpn', unreach={'afi_safi': [25, 70], 'withdraw': rts[:4]})
+    mpt('text.pmsi', reach={'afi_safi': [25, 70], 'nexthop': '10.75.44.254', 'nlri': rts[2:3]},
+        extra={16: [[0x030c, 8]], 22: {'mpls_label': [625], 'tunnel_id': '4.4.4.4', 'tunnel_type': 6, 'leaf_info_required': 0}})
+    rule = {1: '192.88.3.0/24', 2: '192.89.3.0/24', 3: '=6|=17', 5: '=80|=443|>=8080', 6: '>1024', 10: '<=1500', 11: '=46'}
+    mpt('text.flow4', reach={'afi_safi': [1, 133], 'nexthop': '10.0.0.9', 'nlri': [rule]},
+        extra={16: [[0x8006, '0:0'], [0x8008, '65001:7'], [0x0800, '10.1.1.1', 0]]})
+    mpt('text.flow4', unreach={'afi_safi': [1, 133], 'withdraw': [rule]})
+    mpt('text.flow6', reach={'afi_safi': [2, 133], 'nexthop': '2001:db8::1',
+                             'nlri': [{1: {'prefix': '2001:db8::/32', 'offset': 0}, 3: '=6', 13: '=1048575'}]})
+    mpt('text.srte', reach=srte, extra={23: {'0': 'new', '12': 100, '13': 25102, '14': 1, '15': 200, '129': 'policy-A',
+                                             '6': {'asn': 300, 'afi': 'ipv4', 'address': '1.1.1.1'},
+                                             '128': [{'9': 10, '1': segs}]}, 16: [[0x030b, 10]]})
+    mpt('text.srte', reach=srte, extra={23: {'0': 'old', '6': 100, '7': 25102, '128': [{'9': 10, '1': segs}]}})
+    mpt('text.srte', unreach={'afi_safi': [1, 73], 'withdraw': srte['nlri']})
+    return t
+
+
+def gen_text(ctx):
+    rng = ctx.rng
+    out = []
+    # ---- policy name: every name alone, in front of a segment list, and in front of other sub-TLVs
+    srte = {'afi_safi': [1, 73], 'nexthop': '192.168.5.5', 'nlri': {'distinguisher': 0, 'color': 10, 'endpoint': '192.168.5.7'}}
+    seglist = [{'9': 10, '1': [{'1': {'label': 2000}}, {'3': {'node': '10.1.1.1', 'SID': {'label': 3000}}}]}]
+    names = list(POLICY_NAMES)
+    for k in ((1, 2, 3, 42, 84, 126, 127, 129, 254, 255, 256, 257) if ctx.thorough else (1, 127, 255)):
+        names.append(''.join(rng.choice(['a', '\xe9', '\u4e1c', '\U0001f600', '-', '\u0644']) for _ in range(k)))
+    for name in names:
+        for pol in ({'0': 'new', '129': name},
+                    {'0': 'new', '12': 100, '13': 25102, '129': name, '128': seglist},
+                    {'0': 'new', '129': name, '6': {'asn': 300, 'afi': 'ipv4', 'address': '1.1.1.1'}, '128': seglist},
+                    {'0': 'old', '129': name, '128': seglist}):
+            if len(name) > 1000 and '128' in pol and '6' in pol:
+                continue
+            out.append(mp('text.policyname', reach=srte, extra={23: pol}))
+        out.append(upd('text.policyname', {'attr': with_attr(23, {'0': 'new', '129': name}), 'nlri': ['10.0.0.0/8']}))
+    # ---- every string leaf of the representative inputs x unusual text
+    n_leaves = 0
+    for cls, msg in text_templates():
+        for path in _string_leaves(msg):
+            n_leaves += 1
+            orig = _get(msg, path)
+            vs = text_variants(orig, rng, ctx.thorough)
+            if not ctx.thorough:
+                keep = [v for v in vs if len(v) <= 300]
+                vs = keep
+            for v in vs:
+                out.append(upd(cls, _subst(msg, path, v), asn4=(n_leaves % 2 == 0)))
+    gen_text.leaves = n_leaves
+    return out
+
+
 def generate(ctx):
-    cases = gen_small(ctx) + gen_open(ctx) + gen_v4(ctx) + gen_mp(ctx)
+    cases = gen_small(ctx) + gen_open(ctx) + gen_v4(ctx) + gen_mp(ctx) + gen_text(ctx)
     # the committed corpus of earlier failures runs first
     corpus = []
     d = os.path.join(common.VERIF, 'findings')
@@ -530,6 +718,30 @@ def classify(kind, inp, msg):
                 continue
             if fam in ((1, 133), (2, 133)) and any(isinstance(v, str) and '&' in v for v in n.values()):
                 return 'C08-flowspec-and-dropped'
+    # MAC address text that is not six '-'-separated groups (every construct site joins one octet per group)
+    macs = []
+    for ec in (_attr(inp, 16) or []):
+        if isinstance(ec, (list, tuple)) and len(ec) > 1 and ec[0] in (0x0602, 0x0603):
+            macs.append(ec[1])
+    for (fam, nl) in fams:
+        if fam != (25, 70):
+            continue
+        for n in nl:
+            v = n.get('value') if isinstance(n, dict) else None
+            if not isinstance(v, dict):
+                continue
+            if n.get('type') == 2:
+                macs.append(v.get('mac'))
+            e = v.get('esi')
+            if isinstance(e, dict) and isinstance(e.get('value'), dict):
+                macs += [x for k, x in e['value'].items() if k.endswith('mac_addr')]
+    if any(isinstance(m, str) and len(m.split('-')) != 6 for m in macs):
+        return 'C08-mac-text-not-six-groups'
+    for (fam, nl) in fams:
+        for n in nl:
+            if fam == (25, 70) and isinstance(n, dict) and n.get('type') in (3, 4) and \
+                    isinstance(n.get('value'), dict) and not n['value'].get('ip'):
+                return 'C08-evpn-originator-ip-missing'
     for (fam, nl) in fams:
         for n in nl:
             if not isinstance(n, dict):
@@ -634,14 +846,23 @@ def run(ctx):
         'evaluations': len(cases) + n_corr, 'distinct': distinct,
         'rule': 'constructor inputs: exhaustive prefix lengths (0..32, 0..128) for every family, every attribute '
                 'at its length/width boundaries (255/256 octets, 2^16, 2^32), capability subsets, every SR-policy '
-                'sub-TLV and segment kind, flowspec components/operators, EVPN route and ESI types, plus seeded '
-                'random attribute combinations; a case is non-trivial when the constructor returned octets (those '
+                'sub-TLV and segment kind, flowspec components/operators, EVPN route and ESI types, seeded '
+                'random attribute combinations, and free text: every string value of one representative input per '
+                'constructor replaced by legal-but-unusual text (empty, blank, NUL, non-ASCII, non-ASCII digits, '
+                'lone surrogates, 255/256 and 65536 characters, one group fewer/more) and SR policy names whose '
+                'UTF-8 size differs from their character count around 255/256; a case is non-trivial when the constructor returned octets (those '
                 'are walked by valid_msg_with in Coq); distinct by (constructor, input)',
         'samples': [[k, c, i] for (k, c, i) in (cases[:2] + cases[len(cases) // 2:len(cases) // 2 + 2])],
         'mismatches': mism, 'violations': viol,
         'extra': {'constructor_calls': len(cases), 'messages_walked': len(msgs), 'raised_exception': n_exc,
                   'returned_none': n_none, 'exception_types': exc_kinds, 'input_classes': classes,
                   'invalid_by_class': per_class, 'correspondence_cases_small': n_corr,
+                  'free_text': {'string_fields_mutated': getattr(gen_text, 'leaves', 0),
+                                'unusual_texts': len(UNUSUAL_TEXT),
+                                'policy_names': len(POLICY_NAMES),
+                                'policy_names_non_ascii': sum(1 for n in POLICY_NAMES if any(ord(c) > 127 for c in n)),
+                                'cases': sum(1 for (_, c, _) in cases if c.startswith('text.')),
+                                'constructed': sum(1 for (i, m) in msgs if cases[i][1].startswith('text.'))},
                   'max_message_octets': max([len(m) for (_, m) in msgs if m] or [0])},
     }
 
